@@ -7,7 +7,9 @@ This check adds the degenerate shapes nobody else visits:
   (1) text2digits on phrases of 0..2 words drawn from degenerate tokens (hyphen-only, apostrophes, empty halves of a
       hyphenated word, digits, non-Latin, combining characters) and ordinary number words;
   (2) find_numbers and the lazy iterator on short streams of the same tokens at non-finite / negative / tiny thresholds;
-  (3) replace_numbers_in_stream on those streams (drain/insert spans)."""
+  (3) replace_numbers_in_stream on those streams (drain/insert spans);
+  (4) replace_numbers_in_text (tokenize, basic_annotate, scan, splice, join) on texts of three words including the
+      trigger words of the French and English ambiguity annotators."""
 import z3
 from .common import Check, run_parallel, Inconclusive
 from .stream import *
@@ -15,6 +17,7 @@ from .c15 import DRIVER as LAZY_DRIVER
 from oracle.langs import LANGS, CORE_WORDS
 
 DEGENERATE = ['-', '--', "'", "''", 'a-b', '-a', 'a-', 'a--b', '12', '1-2', 'кот', 'é', 'x', "l'", 'o', 'ß', 'İ', '٣']
+TEXT_EXTRA = {'fr': ['le', 'du', "l'", 'numéro', 'neuf', 'vingt', 'plus'], 'en': ['twenty', 'hundred', 'and', 'o', 'plus']}
 THRESHOLDS = [float('nan'), float('inf'), float('-inf'), -0.0, 5e-324, 1.7976931348623157e308, -1.0, 0.5]
 
 
@@ -83,6 +86,36 @@ def worker(ck: Check, code):
                                                                                          r.get('panic') or r2.get('panic'))}
         ck.prove_none('%s:scanner:thr=%r' % (code, thr), st.assm, bad2, on_cex_s, lambda m, c: None)
     ck.cover('%s:scanner:reached' % code, st.assm, lambda m: {'lang': code, 'tokens': [t[0] for t in st.concrete(m)]})
+    # ---------------------------------------------------------------- (4) whole-text entry point (tokenize, annotate, rewrite)
+    from . import textlevel as TL
+    tw = [w_ for w_ in list(dict.fromkeys(CORE_WORDS[code][:(4 if code == 'en' else 14)] + TEXT_EXTRA.get(code, []) + ['xyz', 'x']))
+          if H._wordlike(w_)]
+    kt = 3
+    tv = [z3.BitVec('zt_w%d' % i, 16) for i in range(kt)]
+    sv = [z3.BitVec('zt_s%d' % i, 8) for i in range(kt - 1)]
+    tseps = [' ', ', ', '. ', ' - ']
+    tassm = [z3.ULT(x, len(tw)) for x in tv] + [z3.ULT(x, len(tseps)) for x in sv]
+    txt = TL.parts_text([[(tv[i] == j, w_) for j, w_ in enumerate(tw)] for i in range(kt)],
+                        [[(sv[i] == j, sp) for j, sp in enumerate(tseps)] for i in range(kt - 1)])
+    for thr in (0.0, 10.0):
+        ex4 = TL.text_executor(ck, tassm)
+        lang4 = H.lang_value(ex4, L.type_name)
+        ex4.explore('replace_numbers_in_text', [txt, lang4, thr])
+        ck.absorb(ex4)
+        bad4 = [('replace_numbers_in_text panics: %s %s at %s' % (p.kind, p.msg, p.where), c) for p, c in zip(ex4.panics, conds_of(ex4.panics))]
+
+        def on_cex_t(m, fired=None, thr=thr):
+            t, _ = TL.concrete_text(txt, m)
+            nat = ck.native()
+            r = nat.replace(code, t, thr)
+            rel = ck.native('release')
+            r2 = rel.replace(code, t, thr)
+            rel.close()
+            rep = {'lang': code, 'threshold': thr, 'text': t, 'native_dev': r, 'native_release': r2}
+            return {'key': {'lang': code, 'kind': 'text-panic'}, 'reproduced': 'panic' in r or 'panic' in r2, 'replay': rep,
+                    'what': '%s: replace_numbers_in_text(%r, %s) panics: %s' % (code, t, thr, r.get('panic') or r2.get('panic'))}
+        ck.prove_none('%s:text:thr=%s' % (code, thr), tassm, bad4, on_cex_t, lambda m, c: None)
+    ck.cover('%s:text:reached' % code, tassm, lambda m: {'lang': code, 'text': TL.concrete_text(txt, m)[0]})
     ck.per_lang[code] = {'degenerate_tokens': len(DEGENERATE), 'thresholds': [repr(t) for t in THRESHOLDS]}
 
 
@@ -93,7 +126,7 @@ def run(ck: Check):
     if only:
         langs = [c for c in langs if c in only.split(',')]
     run_parallel(ck, worker, langs)
-    ck.bounds = {'phrase_words': '0..2', 'stream_words': 2, 'thresholds': [repr(t) for t in THRESHOLDS]}
+    ck.bounds = {'phrase_words': '0..2', 'stream_words': 2, 'text_words': 3, 'thresholds': [repr(t) for t in THRESHOLDS]}
     ck.outside += ['very long inputs (termination is by construction: every loop runs over finite input; the claim is bounded by '
                    'the token counts of the checks)', 'allocation failure, stack exhaustion',
                    'tokenizer on arbitrary characters: obligation of C02; builder methods: C12; facade / ISO lookup: C13; '
